@@ -548,6 +548,12 @@ def handleTx (ds : DS) (j : Json) : IO DS := do
     for m in msgs do
       if J.strOf m "t" == "cvm.call" then
         ds := stat ds s!"sit.c18.call.{J.strOf m "kind"}.{if code == 0 then "ok" else "fail"}"
+        -- C17: the gas an execution used is charged to the transaction whether or not it succeeds: an endless loop uses up the
+        -- whole allowance, so the sender pays (nearly) the whole limit
+        if J.strOf m "kind" == "loop" && code != 0 && msgs.length == 1 && ((J.strOf j "log").splitOn "InsufficientGas").length > 1 then
+          ds := stat ds "mon.c17.loop_charged"
+          if J.intOf j "gasUsed" * 10 < J.intOf j "gasWanted" * 9 then
+            ds ← finding ds "monitor" "C17" "failed_execution_is_charged" s!"a call that ran out of gas in an endless loop was charged {J.intOf j "gasUsed"} of {J.intOf j "gasWanted"}"
         -- a call into a program that reverts / aborts / loops must be reported as failed
         if J.strOf m "expect" == "fail" && code == 0 then
           ds ← finding ds "monitor" "C18" "failure_reported" s!"call to a {J.strOf m "kind"} contract returned code 0"
